@@ -71,19 +71,19 @@ def decShortcutTable (w : W) : Option (List (Bytes × Bytes)) := do
 
 def mkParseExt (psl : List (Bytes × (Bytes × Bool))) (addrs : List (Bytes × Option Addr))
     (prefixes : List (Bytes × Option Prefix)) (rewrites : List (Bytes × Option DnsRewrite))
-    (shortcuts : List (Bytes × Bytes)) (pats : List ((Bytes × Bool × Bytes) × Bool)) : ParseExt where
+    (shortcuts : List (Bytes × Bytes)) (pats : List ((Bytes × Bool × Bytes) × Bool)) : E.ParseExt where
   ext := { mkExt psl addrs pats with parsePrefix := tableLookup prefixes none }
   loadDNSRewrite := tableLookup rewrites none
   regexpShortcut := tableLookup shortcuts []
 
 /-- Is the model exact on this parse?  `strings.ToLower` of the shortcut is modelled for ASCII only
     (the ASCII lower-casing keeps non-ASCII bytes, so a non-ASCII candidate shows in the result). -/
-def parseInDomain (x : PE NetRule) : Bool :=
+def parseInDomain (x : E.PE NetRule) : Bool :=
   match x with
   | .ok r => Bytes.isAscii r.shortcut
   | .error _ => true
 
-def outParse (x : PE NetRule) : String :=
+def outParse (x : E.PE NetRule) : String :=
   match x with
   | .ok r => (encNetRule r).replace " " ","   -- answers are single tokens without blanks
   | .error .err => "err"
@@ -98,7 +98,7 @@ def opC04Parse (args : List W) : String :=
         decShortcutTable shortcuts with
     | some text, some id, some addrs, some prefixes, some rewrites, some shortcuts =>
       let px := mkParseExt [] addrs prefixes rewrites shortcuts []
-      let res := parseNetRule px text id
+      let res := E.parseNetRule px text id
       if !parseInDomain res then "ood -" else outParse res ++ " -"
     | _, _, _, _, _, _ => "bad-decode"
   | _ => "bad-arity"
@@ -126,7 +126,7 @@ def opC04TextMatch (args : List W) : String :=
         decShortcutTable shortcuts, decRequest q, decPslTable psl, decPatTable pats with
     | some text, some id, some addrs, some prefixes, some rewrites, some shortcuts, some q, some psl, some pats =>
       let px := mkParseExt psl addrs prefixes rewrites shortcuts pats
-      let res := parseNetRule px text id
+      let res := E.parseNetRule px text id
       if !parseInDomain res || !q.inDomainB then "ood ood" else
       match res with
       | .ok r => outBool (r.matches px.ext q) ++ " " ++ outBool (specMatch px.ext r q)
@@ -160,11 +160,11 @@ def opC12NewRule (args : List W) : String :=
     match line.bytes?, id.int?, decTrimTable trims, hostRule, decAddrTable addrs, decPrefixTable prefixes,
         decRewriteTable rewrites, decShortcutTable shortcuts with
     | some line, some id, some trims, some hostRule, some addrs, some prefixes, some rewrites, some shortcuts =>
-      let rx : RuleExt := {
+      let rx : E.RuleExt := {
         px := mkParseExt [] addrs prefixes rewrites shortcuts []
         trim := trimOf trims
         newHostRule := fun _ _ => hostRule }
-      let out := match newRule rx line id with
+      let out := match E.newRule rx line id with
         | .ok none => "none"
         | .ok (some r) =>
           let kind := match r with | .net _ => "net" | .host _ => "host" | .cos _ => "cos"
@@ -177,7 +177,7 @@ def opC12NewRule (args : List W) : String :=
 
 /-! ### The text-level helpers one by one (`c04.units`) -/
 
-def outPE {α} (f : α → String) (x : PE α) : String :=
+def outPE {α} (f : α → String) (x : E.PE α) : String :=
   match x with
   | .ok a => f a
   | .error .err => "err"
@@ -187,20 +187,20 @@ def opC04Units (op : String) (args : List W) : Option String :=
   match op, args with
   | "c04.domainname", [s] => some <|
     match s.bytes? with
-    | some s => outPE outBool (isDomainNameC s) ++ " -"
+    | some s => outPE outBool (E.isDomainNameC s) ++ " -"
     | none => "bad-decode"
   | "c04.split", [s, sep, esc, pres] => some <|
     match s.bytes?, sep.nat?, esc.nat?, pres.bool? with
     | some s, some sep, some esc, some pres =>
-      outPE (fun l => (encStrs l).replace " " ",") (splitWithEscapeCharacter s sep.toUInt8 esc.toUInt8 pres) ++ " -"
+      outPE (fun l => (encStrs l).replace " " ",") (E.splitWithEscapeCharacter s sep.toUInt8 esc.toUInt8 pres) ++ " -"
     | _, _, _, _ => "bad-decode"
   | "c04.ruletext", [s] => some <|
     match s.bytes? with
-    | some s => outPE (fun (p, o, wl) => "(" ++ outBytes p ++ "," ++ outBytes o ++ "," ++ outBool wl ++ ")") (parseRuleText s) ++ " -"
+    | some s => outPE (fun (p, o, wl) => "(" ++ outBytes p ++ "," ++ outBytes o ++ "," ++ outBool wl ++ ")") (E.parseRuleText s) ++ " -"
     | none => "bad-decode"
   | "c04.shortcut", [s] => some <|
     match s.bytes? with
-    | some s => outPE outBytes (findShortcut s) ++ " -"
+    | some s => outPE outBytes (E.findShortcut s) ++ " -"
     | none => "bad-decode"
   | _, _ => none
 
